@@ -1,13 +1,69 @@
-(** Tie/Leaf_query.v — BPMEvents.timestamp_at_tick as translated from the current source is the model's
-    [timestamp_at_tick] (the index search [_index_of_proximal_event] is a loop and stays hand-modelled). *)
-From CP Require Import Base.Prelude Base.Float64 Base.Timedelta Model.Sync Gen.Leaf_tick Gen.Leaf_query.
+(** Tie/Leaf_query.v — BPMEvents._index_of_proximal_event (incl. its forward-scan loop) and
+    BPMEvents.timestamp_at_tick as translated from the current source are the model's
+    [index_of_proximal] (for hints >= 0) and [timestamp_at_tick]. *)
+From CP Require Import Base.Prelude Base.Loops Base.Float64 Base.Timedelta Model.Sync Gen.Leaf_tick Gen.Leaf_query.
+From Coq Require Import ZifyBool ZifyNat.
 Open Scope Z_scope.
+
+Lemma nth_Z_skipn {A} (l : list A) h x rest : 0 <= h -> skipn (Z.to_nat h) l = x :: rest -> nth_Z l h = Some x.
+Proof.
+  intros Hh H. unfold nth_Z. replace (h <? 0) with false by lia.
+  revert l H. generalize (Z.to_nat h) as n. induction n as [|n IH]; intros [|y l] H; cbn in *; try discriminate.
+  - inversion H; reflexivity.
+  - apply IH; exact H.
+Qed.
+
+Lemma skipn_succ {A} (l : list A) n x rest : skipn n l = x :: rest -> skipn (S n) l = rest.
+Proof.
+  revert l. induction n as [|n IH]; intros [|y l] H; cbn in *; try discriminate.
+  - inversion H; reflexivity.
+  - apply IH; exact H.
+Qed.
+
+(** The translated loop computes the model's scan. *)
+Lemma for_first_scan es tick : forall rest first h,
+  0 <= h -> skipn (Z.to_nat h) es = first :: rest ->
+  for_first_fuel (length rest) h (h + Z.of_nat (length rest))
+    (fun index => let* x1 := seq_get es (index + 1) in Ok (tick <? b_tick x1))
+    (Ok (h + Z.of_nat (length rest)))
+  = Ok (scan_from (first :: rest) h tick).
+Proof.
+  induction rest as [|nxt rest IH]; intros first h Hh Hs.
+  - cbn. rewrite Z.add_0_r. reflexivity.
+  - cbn [length for_first_fuel scan_from].
+    replace (h + Z.of_nat (S (length rest)) <=? h) with false by lia.
+    assert (Hs' : skipn (Z.to_nat (h + 1)) es = nxt :: rest).
+    { replace (Z.to_nat (h + 1)) with (S (Z.to_nat h)) by lia. eapply skipn_succ; exact Hs. }
+    unfold seq_get at 1. rewrite (nth_Z_skipn es (h + 1) nxt rest) by (try lia; exact Hs'). cbn [bind].
+    destruct (tick <? b_tick nxt); [reflexivity|].
+    replace (h + Z.of_nat (S (length rest))) with ((h + 1) + Z.of_nat (length rest)) by lia.
+    apply (IH nxt (h + 1)); [lia|exact Hs'].
+Qed.
+
+Lemma leaf_index_of_proximal_ok : forall es tick h, 0 <= h ->
+  leaf_index_of_proximal es tick h = index_of_proximal es tick h.
+Proof.
+  intros es tick h Hh. unfold leaf_index_of_proximal, index_of_proximal.
+  replace (h <? 0) with false by lia.
+  destruct (Zlength_ es - 1 <? h) eqn:El; [reflexivity|].
+  destruct (skipn (Z.to_nat h) es) as [|first rest] eqn:Es.
+  - exfalso. assert (Hl : length (skipn (Z.to_nat h) es) = 0%nat) by (rewrite Es; reflexivity).
+    rewrite skipn_length in Hl. unfold Zlength_ in El. lia.
+  - unfold seq_get at 1. rewrite (nth_Z_skipn es h first rest Hh Es). cbn [bind].
+    destruct (tick <? b_tick first); [reflexivity|].
+    assert (Hlen : Zlength_ es - 1 = h + Z.of_nat (length rest)).
+    { unfold Zlength_. assert (length (skipn (Z.to_nat h) es) = S (length rest)) by (rewrite Es; reflexivity).
+      rewrite skipn_length in H. lia. }
+    unfold for_first. rewrite Hlen.
+    replace (Z.to_nat (h + Z.of_nat (length rest) - h)) with (length rest) by lia.
+    apply for_first_scan; assumption.
+Qed.
 
 Lemma leaf_timestamp_at_tick_ok : forall B tick h, leaf_timestamp_at_tick B tick h = timestamp_at_tick B tick h.
 Proof.
   intros B tick h. unfold leaf_timestamp_at_tick, timestamp_at_tick.
   destruct (index_of_proximal (evs B) tick h) as [idx|e]; cbn [bind]; [|reflexivity].
-  destruct (nth_Z (evs B) idx) as [p|]; cbn [bind]; [|reflexivity].
+  unfold seq_get. destruct (nth_Z (evs B) idx) as [p|]; cbn [bind]; [|reflexivity].
   change (leaf_seconds (leaf_tick_between (b_tick p) tick) (b_bpm p) (resolution B))
     with (seconds (tick_between (b_tick p) tick) (b_bpm p) (resolution B)).
   destruct (seconds (tick_between (b_tick p) tick) (b_bpm p) (resolution B)) as [s|e]; cbn [bind]; [|reflexivity].
